@@ -1,6 +1,7 @@
 package verifh
 
 import (
+	"io"
 	"os"
 	"path/filepath"
 	"syscall"
@@ -18,7 +19,7 @@ import (
 func TestC18(t *testing.T) {
 	r := NewReporter(t)
 	defer r.Done()
-	r.Rule("(a) every tree with <= N nodes x {plain, PS3}: successive opens with the virtual clock advanced by {0, 1 s, 1 h, 400 d} between them, library view and over the protocol; (b) two concurrent opens+reads of the same tree under the controlled scheduler (scheduling points = leaf filesystem operations, all interleavings with <= 2/3 preemptions) for 4 representative trees; (c) for these and a PS3 tree with decoy PARAM.SFO files: an open disturbed by one deviation at every leaf filesystem operation index (EIO, EINTR, short reads of 1 / half / all-but-one / 5 / 7 / 8 bytes) fails or yields the same image and stays readable; oracle: equal size, byte-equal outside the PVD/SVD creation/modification timestamps and PS3 sector-1 filler; distinct by (tree, mode, gap | schedule)")
+	r.Rule("(a) every tree with <= N nodes x {plain, PS3}: successive opens with the virtual clock advanced by {0, 1 s, 1 h, 400 d} between them, library view and over the protocol, and reads by absolute offset at every structural boundary +-1 on a fresh open into dirty buffers; (b) two concurrent opens+reads of the same tree under the controlled scheduler (scheduling points = leaf filesystem operations, all interleavings with <= 2/3 preemptions) for 4 representative trees; (c) for these and a PS3 tree with decoy PARAM.SFO files: an open disturbed by one deviation at every leaf filesystem operation index (EIO, EINTR, short reads of 1 / half / all-but-one / 5 / 7 / 8 bytes) fails or yields the same image and stays readable; oracle: equal size, byte-equal outside the PVD/SVD creation/modification timestamps and PS3 sector-1 filler; distinct by (tree, mode, gap | schedule)")
 	base := filepath.Join(scratchBase(), sprintf("verifh-c18-%d", os.Getpid()))
 	root := filepath.Join(base, "root")
 	defer os.RemoveAll(base)
@@ -99,6 +100,32 @@ func TestC18(t *testing.T) {
 							return
 						}
 						r.Outcome("same")
+					}
+					// "a client that reconnects can keep reading by absolute offset": on a fresh open, reads that start at
+					// every structural boundary +-1 (inside files, inside the zero tail of a file's last sector, inside the
+					// padding), into buffers that still hold other data, return the bytes of the first open
+					if v, err := openVISO(root, "/T", ps3); err == nil {
+						st := &ioState{}
+						for _, b := range structuralBoundaries(first) {
+							for _, d := range []int64{-1, 1, 700} {
+								off := b + d
+								if off < 0 || off >= int64(len(first)) {
+									continue
+								}
+								for _, op := range []ioOp{{Kind: "readat", N: 100, Off: off}, {Kind: "seek", Off: off, Whence: io.SeekStart}, {Kind: "read", N: 1500}} {
+									why, class := applyOp(v, first, st, op, mask)
+									r.Transition(1)
+									if why != "" {
+										r.Outcome("resume-differs")
+										r.Violation("C18:resume-by-offset:"+class, sprintf("%s: on a fresh open, %s", desc, why), rep)
+										v.Close()
+										return
+									}
+								}
+							}
+						}
+						v.Close()
+						r.Outcome("resume-same")
 					}
 				})
 				// over the protocol (another connection, later)
